@@ -28,7 +28,7 @@ def run(chk):
     # renumbering: dd.mdd takes freed numbers from a set)
     dot = os.path.join(chk.dir, 'mdd.dot')
     chk.mc('MC_MDD', 'MC_MDD.cfg', extra=['-dump', 'dot', dot])
-    gt = [dict(shard=chk.shard('mg_c15_%d' % i), dot=dot, part=i, nparts=8, limit=1200 if q else 12000,
+    gt = [dict(shard=chk.shard('mg_c15_%d' % i), dot=dot, part=i, nparts=8, limit=chk.th(1200, 12000),
                seed=chk.seed, first_tid=15500000 + i * 10000) for i in range(8)]
     gsh, gres = chk.generate(mdd_drv.mdd_graph_task, gt)
     os.remove(dot)
@@ -41,13 +41,13 @@ def run(chk):
     chk.log('state conformance MC_MDD: %d/%d' % (conf['equal'], conf['steps']))
     n = tlcrun.NCPU
     tasks = [dict(shard=chk.shard('m_c15_%d' % i), tid0=15000000 + i * 1000,
-                  seed=chk.seed * 37 + i, nhist=4 if q else 120,
-                  steps=60 if q else 150, nconv=25 if q else 1500)
+                  seed=chk.seed * 37 + i, nhist=chk.th(4, 120),
+                  steps=chk.th(60, 150), nconv=chk.th(25, 1500))
              for i in range(n)]
     sh, _ = chk.generate(mdd_drv.c15_task, tasks)
     # tables beyond 256 nodes (node numbers that are no longer shared int objects)
-    bt = [dict(shard=chk.shard('mb_c15_%d' % i), tid=15900000 + i, seed=chk.seed * 53 + i, tail=10 if q else 40)
-          for i in range(4 if q else 12)]
+    bt = [dict(shard=chk.shard('mb_c15_%d' % i), tid=15900000 + i, seed=chk.seed * 53 + i, tail=chk.th(10, 40))
+          for i in range(chk.th(4, 12))]
     bsh, _ = chk.generate(mdd_drv.big_task, bt)
     chk.validate('TraceMDD', 'TraceMDD.cfg', sh + gsh + bsh, merge=False, timeout=6000)
 
